@@ -36,13 +36,13 @@ CHECKS.update({
  "C04": dict(
   level="exploration",
   technique="bounded-exhaustive enumeration of strings/doubles/typed values through the real conversion paths against reference conversions",
-  text="number() of every string of length <=4/5 over a 14-symbol alphabet (incl. U+00A0, U+0663) plus boundary words (other Unicode spaces, exponents, hex ...), directly and through element text; string() of 37 boundary doubles judged by the statement's own criterion; 52 conversion contexts x 35 typed values (implicit = explicit); string-value of every node of every forest <=4 nodes x 4 decorations through three APIs; node-set conversions over reverse axes from every context node.",
+  text="number() of every string of length <=5 (both tiers) over a 14-symbol alphabet (incl. U+00A0, U+0663) plus boundary words (other Unicode spaces, exponents, hex ...), directly and through element text; string() of 37 boundary doubles judged by the statement's own criterion; 52 conversion contexts x 35 typed values (implicit = explicit); string-value of every node of every forest <=4 nodes x 4 decorations through three APIs; node-set conversions over reverse axes from every context node.",
   note="Trusted: refxp/value.go. Doubles outside the boundary set and longer strings are not covered.",
   ref="2 C04"),
  "C05": dict(
   level="exploration",
   technique="exhaustive enumeration of all ordered operand pairs over a value alphabet x 6 operators against XPath 1.0 section 3.4",
-  text="2 booleans, 11 numbers, 12 strings and every node-set of size <=3/4 over 8 elements: all ordered pairs x {=,!=,<,<=,>,>=}, operands as variables and (every 7th pair) as literals/paths.",
+  text="2 booleans, 11 numbers, 12 strings and every node-set of size <=4 (both tiers) over 8 elements: all ordered pairs x {=,!=,<,<=,>,>=}, operands as variables and (every 7th pair) as literals/paths.",
   note="Trusted: refxp.Compare. Values outside the alphabet not covered.",
   ref="2 C05"),
  "C06": dict(
@@ -102,7 +102,7 @@ CHECKS.update({
  "C19": dict(
   level="exploration",
   technique="bounded-exhaustive enumeration of reflect-generated target types x tag expressions x nodes against values derived from separate Exec calls",
-  text="40 field/element types (all supported kinds, pointer chains, nestings, and the unsupported kinds) x 22/30 tag expressions x every element of 3 documents as *T and **T; slice targets over node-sets of 0-3 nodes in both orders; 36 ill-shaped targets and results; expected values from separate Exec calls plus the statement's conversion table; never a panic; untagged fields untouched.",
+  text="40 field/element types (all supported kinds, pointer chains, nestings, and the unsupported kinds) x 30 tag expressions (both tiers) x every element of 3 documents as *T and **T; slice targets over node-sets of 0-3 nodes in both orders; 36 ill-shaped targets and results; expected values from separate Exec calls plus the statement's conversion table; never a panic; untagged fields untouched.",
   note="Exec is trusted here (verified by C01-C07). Unrepresentable float->int conversions only required not to panic.",
   ref="2 C19"),
  "C13": dict(
